@@ -32,7 +32,7 @@ TARGET_FIELDS = {
     ('NamedExpr', 'target'), ('Delete', 'targets'),
 }
 TARGET_KINDS = ['Name', 'Attribute', 'Subscript', 'Tuple(Name,Attribute)', 'Tuple(Starred,Name)',
-                'List(Name,Tuple(Name,Name))', 'Tuple(Name,Subscript)']
+                'List(Name,Tuple(Name,Name))', 'Tuple(Name,Subscript)', 'Tuple(StarredTuple,Name)']
 ONLY_NAME_TARGET = {('NamedExpr', 'target')}
 SIMPLE_TARGET = {('AnnAssign', 'target'), ('AugAssign', 'target')}   # Name | Attribute | Subscript
 
@@ -86,6 +86,9 @@ class ShapeBuilder(object):
                                                         'ctx': self.ctx('Store', path)})
         if kind == 'Starred':
             return SymNode('Starred', path, 'expr', {'value': self.target('Name', path + '.value'),
+                                                      'ctx': self.ctx('Store', path)})
+        if kind == 'StarredTuple':      # *(a, b), c = x
+            return SymNode('Starred', path, 'expr', {'value': self.target('Tuple(Name,Name)', path + '.value'),
                                                       'ctx': self.ctx('Store', path)})
         if kind.startswith('Tuple(') or kind.startswith('List('):
             cls = kind[:kind.index('(')]
